@@ -1,5 +1,6 @@
 //! Conformance harness for the llfree TLA+ specifications (see /verif/DESIGN.md).
 mod conc;
+mod decode;
 mod hook;
 mod sat;
 mod seq;
@@ -93,7 +94,7 @@ fn main() {
                 }
                 let scn = conc::Scenario::parse(v);
                 let opts = conc::ExecOpts {
-                    keep_ops: false,
+                    keep_ops: m.contains_key("opsout"),
                     crash: geti(&m, "crash", 0) == 1,
                     crash_every: geti(&m, "every", 1),
                     max_steps: geti(&m, "maxsteps", 3000),
@@ -120,7 +121,10 @@ fn main() {
                         nsolo += ex.solo_points(b, geti(&m, "budget", 20000), geti(&m, "stride", 1));
                     }
                 }
-                summary.push(serde_json::json!({"scn": nm, "execs": ex.execs, "distinct": ex.distinct,
+                if let Some(p) = m.get("opsout") {
+                    std::fs::write(p, ex.ops_lines.join("\n") + "\n").unwrap();
+                }
+                summary.push(serde_json::json!({"scn": nm, "execs": ex.execs, "distinct": ex.distinct, "opseqs": ex.ops_lines.len(),
                     "max_steps": ex.max_steps_seen, "solo": nsolo}));
             }
             write_out(&m, &props, &out.lines);
@@ -156,6 +160,18 @@ fn main() {
             let mut out = seq::Out::new();
             seq::script_runs(&mut out, m.get("in").expect("in=FILE"));
             write_out(&m, &props, &out.lines);
+        }
+        "dumpmem" => {
+            // memory image after a scenario's setup + the thread programs, for the FINE model (MC modules)
+            let file = m.get("scn").expect("scn=FILE");
+            let all: serde_json::Value = serde_json::from_str(&std::fs::read_to_string(file).unwrap()).unwrap();
+            for v in all.as_array().unwrap() {
+                if v["name"].as_str() != m.get("name").map(|s| s.as_str()) {
+                    continue;
+                }
+                let scn = conc::Scenario::parse(v);
+                println!("{}", conc::dump_scenario(&scn));
+            }
         }
         "crashseq" => {
             // random single-thread programs, a crash probe before every write to the lower metadata
